@@ -196,9 +196,10 @@ def build_pools(rng):
     # ZoneInterval
     zi = []
     for nm in ("A", "B"):
-        for a, b in ((None, 0), (0, 10**9), (0, None), (None, None), (1, 10**9)):
-            for w, s in ((3600, 0), (3600, 3600), (0, 0)):
-                if rng.random() < 0.5:
+        for a, b in ((None, 0), (0, 10**9), (0, None), (None, None), (1, 10**9), (gen.INST_MIN_NS, 0), (gen.INST_MIN_NS + 3600 * 10**9, 0), (gen.INST_MIN_NS + 1, 0),
+                     (0, gen.INST_MAX_NS), (0, gen.INST_MAX_NS - 3600 * 10**9), (0, gen.INST_MAX_NS - 1)):
+            for w, s in ((3600, 0), (3600, 3600), (0, 0), (-18000, 0), (64800, 3600), (-64800, 0)):
+                if rng.random() < (0.5 if abs(a or 0) < 10**19 and abs(b or 0) < 10**19 else 0.8):
                     mk = lambda: ZoneInterval(name=nm, start=None if a is None else gen.ns_inst(a), end=None if b is None else gen.ns_inst(b),  # noqa: E731
                                               wall_offset=Offset.from_seconds(w), savings=Offset.from_seconds(s))
                     zi.append(((nm, a, b, w, s), None, None, mk(), "ctor")); zi.append(((nm, a, b, w, s), None, None, mk(), "ctor2"))
@@ -207,7 +208,8 @@ def build_pools(rng):
         v = lon.get_zone_interval(gen.ns_inst(n))
         k = (v.name, gen.inst_ns(v.start) if v.has_start else None, gen.inst_ns(v.end) if v.has_end else None, v.wall_offset.seconds, v.savings.seconds)
         zi.append((k, None, None, v, "zone")); zi.append((k, None, None, lon.get_zone_interval(gen.ns_inst(n + 1)), "zone+1"))
-    G.append(("ZoneInterval", False, zi[:40]))
+    rng.shuffle(zi)
+    G.append(("ZoneInterval", False, zi[:70]))
     # fixed zones
     fz = []
     for s in (0, 3600, 1800, 5, -64800, rng.randint(-64800, 64800)):
@@ -394,7 +396,7 @@ def immut(ctx, iters):
         ldt = ld.at(lt); off = Offset.from_seconds(rng.randint(-64800, 64800)); dur = Duration.from_nanoseconds(rng.randint(-10**15, 10**15))
         per = Period.from_days(rng.randint(-50, 50)) + Period.from_months(rng.randint(-5, 5))
         pert = Period.from_hours(rng.randint(-50, 50)) + Period.from_nanoseconds(rng.randint(-10**12, 10**12))
-        inst = Instant.from_unix_time_seconds(rng.randint(-10**9, 4 * 10**9))
+        inst = Instant.from_unix_time_seconds(rng.randint(-10**9, 4 * 10**9)).plus_nanoseconds(rng.choice([0, 1, 99, 100, rng.randrange(10**9)]))
         z = rng.choice(zones)
         return dict(LocalDate=ld, LocalTime=lt, LocalDateTime=ldt, Offset=off, Duration=dur, Period=per, Instant=inst, OffsetDateTime=ldt.with_offset(off), OffsetDate=ld.with_offset(off),
                     OffsetTime=lt.with_offset(off), YearMonth=ld.to_year_month(), AnnualDate=AnnualDate(rng.randint(1, 12), rng.randint(1, 28)), DateInterval=DateInterval(ld, ld.plus_days(rng.randint(0, 9))),
@@ -481,6 +483,32 @@ def immut(ctx, iters):
             if fp(v) != shared_fp[k]:
                 ctx.V(f"C12:immutability:shared-constant:{k}", f"the shared constant {k} changed value after augmented assignments on values equal to it", {"kind": "immut", "type": k, "member": "shared"})
                 shared_fp[k] = fp(v)
+    # a copy of a value (copy / deepcopy / pickle round trip), where the type supports the protocol at all, is the same value
+    import copy
+    import pickle
+    PROTOS = (("copy", copy.copy), ("deepcopy", copy.deepcopy), ("pickle", lambda x: pickle.loads(pickle.dumps(x))), ("pickle-p2", lambda x: pickle.loads(pickle.dumps(x, protocol=2))))
+    for it in range(max(30, iters // 4)):
+        P = pool()
+        extra = {"Instant.max": Instant.max_value, "Instant.min": Instant.min_value, "Duration.max": Duration.max_value, "Interval-open": Interval(None, P["Instant"]), "Interval-open-end": Interval(P["Instant"], None)}
+        for tname, o in list(P.items()) + list(extra.items()):
+            if tname in ("int", "IsoDayOfWeek", "CalendarSystem", "DateTimeZone"): continue
+            before = fp(o)
+            for pn, f in PROTOS:
+                try:
+                    w = f(o)
+                except Exception as e:  # noqa: BLE001  (protocol not supported by this type: not part of the property)
+                    ctx.exc(e); ctx.count("copy_protocol_unsupported"); continue
+                ctx.ev(); ctx.count("copies"); ctx.key(("copy", tname, pn))
+                try:
+                    same = (w == o) and (o == w) and not (w != o)
+                    if same and getattr(type(o), "__hash__", None) is not None: same = hash(w) == hash(o)
+                    if same and hasattr(o, "compare_to") and tname not in ("Interval-open", "Interval-open-end"): same = o.compare_to(w) == 0
+                except Exception as e:  # noqa: BLE001
+                    ctx.exc(e); same = False
+                if not same:
+                    ctx.V(f"C12:copy-differs:{tname.split('.')[0].split('-')[0]}:{pn.split('-')[0]}", f"{pn} of {tname} {o!r} gives {w!r}, which is not equal / hash-equal to the original", {"kind": "immut", "type": tname, "member": pn})
+                if fp(o) != before:
+                    ctx.V(f"C12:immutability:{tname}:{pn}", f"{pn} changed the original {tname}", {"kind": "immut", "type": tname, "member": pn})
     ctx.sample({"kind": "immut", "types": len(TYPES), "iters": iters}, cap=8)
 
 
